@@ -25,7 +25,7 @@ struct Mutn {
 }
 
 fn mutn_strategy() -> BoxedStrategy<Vec<Mutn>> {
-    proptest::collection::vec((0u8..8, any::<u32>(), any::<u64>()).prop_map(|(kind, a, b)| Mutn { kind, a, b }), 1..3).boxed()
+    proptest::collection::vec((0u8..9, any::<u32>(), any::<u64>()).prop_map(|(kind, a, b)| Mutn { kind, a, b }), 1..3).boxed()
 }
 
 fn idx(a: u32, n: usize) -> usize {
@@ -150,6 +150,38 @@ fn apply(bytes: &[u8], pstart: usize, spans: &[(usize, usize, Role)], other: &[u
                 }
                 labels.push(format!("random_body:{}", n));
             }
+            8 => {
+                // small arithmetic on something that looks like a count: an 8-byte window whose
+                // upper bytes are zero, optionally with the top bit set as a flag (leaf types with
+                // private encodings carry such counts where the reference encoder has no spans)
+                let cands: Vec<usize> = (pstart..out.len().saturating_sub(7))
+                    .filter(|k| out[k + 3..k + 7].iter().all(|b| *b == 0) && (out[k + 7] == 0 || out[k + 7] == 0x80))
+                    .collect();
+                if !cands.is_empty() {
+                    let k = cands[idx(m.a, cands.len())];
+                    let orig = u64::from_le_bytes(out[k..k + 8].try_into().unwrap());
+                    let flag = orig & (1 << 63);
+                    let x = orig & !(1 << 63);
+                    let nv = match m.b % 14 {
+                        0 => x.wrapping_sub(1),
+                        1 => x.wrapping_sub(2),
+                        2 => x.wrapping_sub(3),
+                        3 => x.wrapping_sub(4),
+                        4 => x.wrapping_sub(7),
+                        5 => x.wrapping_add(1),
+                        6 => x.wrapping_add(2),
+                        7 => x.wrapping_add(3),
+                        8 => x.wrapping_add(5),
+                        9 => x / 2,
+                        10 => x.wrapping_mul(2),
+                        11 => x.wrapping_mul(8),
+                        12 => x / 8,
+                        _ => x ^ 4,
+                    } & !(1 << 63);
+                    out[k..k + 8].copy_from_slice(&(nv | flag).to_le_bytes());
+                    labels.push(format!("count@{}:{}->{}", k, x, nv));
+                }
+            }
             _ => {
                 // a length-looking pattern somewhere in the payload
                 if out.len() >= pstart + 8 {
@@ -223,6 +255,9 @@ fn one_case(cs: &Case, vals: &[DV], ms: &[Mutn], st: &mut Stats, counting: bool)
         // the unmutated file must load (non-vacuity of the mutation)
         if counting {
             st.evaluations += 1;
+        }
+        if std::env::var_os("VERIF_TRACE").is_some() {
+            eprintln!("TRACE {:?} {:?} {:?} {}", c, p, labels, hex_full(&bad[..bad.len().min(400)]));
         }
         match judge(b, ri, c, p, cur, &bad) {
             Ok(class) => {
@@ -385,6 +420,12 @@ fn main() {
         let mut shard = Shard::new(&args);
         for b in &batches {
             for ri in 0..b.roots.len() {
+                // debugging aid: VERIF_ONLY_ROOT=<substring of the type name>
+                if let Ok(only) = std::env::var("VERIF_ONLY_ROOT") {
+                    if !b.ops[ri].type_name().contains(&only) {
+                        continue;
+                    }
+                }
                 if !shard.take(&format!("{}:{}:{}", b.name, ri, b.ops[ri].type_name())) {
                     continue;
                 }
